@@ -80,6 +80,8 @@ def record_one(cap, nthreads, tags, seed, chooser):
                     s.emit('SRet', res='token', tok=tok)
                 except NoResourcesAvailable:
                     s.emit('SRet', res='NoResourcesAvailable', tok=-1)
+                except Exception as e:     # any other outcome is an observation, not a harness error
+                    s.emit('SRet', res='error:' + type(e).__name__, tok=-1)
                 innb[name] = False
             elif op[0] == 'bogus':
                 tag, tok = op[1], op[2]
@@ -89,6 +91,8 @@ def record_one(cap, nthreads, tags, seed, chooser):
                     s.emit('SRet', res='ok', tok=-1)
                 except ValueError:
                     s.emit('SRet', res='ValueError', tok=-1)
+                except Exception as e:
+                    s.emit('SRet', res='error:' + type(e).__name__, tok=-1)
             else:
                 order = list(held)
                 if op[1]:
@@ -100,6 +104,8 @@ def record_one(cap, nthreads, tags, seed, chooser):
                         s.emit('SRet', res='ok', tok=-1)
                     except ValueError:
                         s.emit('SRet', res='ValueError', tok=-1)
+                    except Exception as e:
+                        s.emit('SRet', res='error:' + type(e).__name__, tok=-1)
                 held.clear()
 
     def main():
